@@ -74,16 +74,16 @@ def minimise(prop: str, cfg: dict, v0: dict, *, budget: float, workers: int) -> 
             return out
 
         # cut everything after the violating operation
-        ops = best["ops"]
+        ops = best.get("ops") or []
         idx = next((i for i, o in enumerate(ops) if o.get("id") == v0.get("op_index")), len(ops) - 1)
-        if idx < len(ops) - 1:
+        if ops and idx < len(ops) - 1:
             c = copy.deepcopy(best)
             c["ops"] = ops[:idx + 1]
             r = try_all([c])
             if r:
                 best, best_v = r
         n = 2
-        while len(best["ops"]) >= 2 and time.time() - t0 < budget:
+        while len(best.get("ops") or []) >= 2 and time.time() - t0 < budget:
             ops = best["ops"]
             n = min(n, len(ops))
             size = -(-len(ops) // n)
